@@ -118,3 +118,28 @@ Section ProcessTimeouts.
              end
     end.
 End ProcessTimeouts.
+
+(* ---- executable statements of the property (the oracles the engine applies to what the
+        implementation returned; extracted as they are) ---- *)
+Definition spec_timedout (now check : timeval) : bool := tv_us check <=? tv_us now.
+Definition spec_remaining_us (now tout : timeval) : Z := Z.max 0 (tv_us tout - tv_us now).
+
+(* C07: the hint v (None = NULL) is never negative, never later than any pending deadline,
+   never later than the caller's maximum, and NULL only when nothing is outstanding and no
+   maximum was given *)
+Definition hint_okb (deadlines : list timeval) (now : timeval) (maxtv v : option timeval) : bool :=
+  match v with
+  | None => match deadlines, maxtv with [], None => true | _, _ => false end
+  | Some t =>
+      (0 <=? tv_sec t) && (0 <=? tv_usec t) && (tv_usec t <? 1000000) &&
+      forallb (fun d => tv_us t <=? spec_remaining_us now d) deadlines &&
+      match maxtv with None => true | Some m => tv_us t <=? tv_us m end
+  end.
+
+(* stable insertion sort by the generated comparator: how the skip list orders deadlines *)
+Fixpoint insert_deadline (x : timeval) (l : list timeval) : list timeval :=
+  match l with
+  | [] => [x]
+  | y :: r => if cmp_leb y x then y :: insert_deadline x r else x :: y :: r
+  end.
+Definition sort_deadlines (l : list timeval) : list timeval := fold_left (fun acc x => insert_deadline x acc) l [].
